@@ -452,14 +452,17 @@ class _MExpr:
             lhs = scope[glom](target, lhs.spec, scope)
         if type(rhs) is _MSubspec:
             rhs = scope[glom](target, rhs.spec, scope)
-        matched = (
-            (op == '=' and lhs == rhs) or
-            (op == '!' and lhs != rhs) or
-            (op == '>' and lhs > rhs) or
-            (op == '<' and lhs < rhs) or
-            (op == 'g' and lhs >= rhs) or
-            (op == 'l' and lhs <= rhs)
-        )
+        try:
+            matched = (
+                (op == '=' and lhs == rhs) or
+                (op == '!' and lhs != rhs) or
+                (op == '>' and lhs > rhs) or
+                (op == '<' and lhs < rhs) or
+                (op == 'g' and lhs >= rhs) or
+                (op == 'l' and lhs <= rhs)
+            )
+        except TypeError:
+            matched = False  # values that cannot be ordered do not match
         if matched:
             return target
         raise MatchError("{0!r} {1} {2!r}", lhs, _M_OP_MAP.get(op, op), rhs)
